@@ -43,7 +43,17 @@ func (state *singleRateLimitState) TryToIncrement(
 ) CurrentLimitState {
 	state.mutex.Lock()
 	defer state.mutex.Unlock()
+	windowSizeChanged := state.windowData.WindowSize != 0 &&
+		state.windowData.WindowSize != windowData.WindowSize
 	state.windowData = windowData
+	if windowSizeChanged {
+		// The stored window end belongs to the grid of the previous window size
+		// (a policy reload changed it). Counting restarts on the new grid at once:
+		// otherwise requests stay blocked until the old, possibly much longer,
+		// window ends, or the counter is reset in the middle of a new window.
+		state.counter = 0
+		state.windowEndTime = epochTime
+	}
 	state.ensureWindowIsUpdated()
 
 	maxAllowedInWindows := int64(math.Ceil(float64(
